@@ -994,6 +994,26 @@ def utf8_digest_payload(rng):
     return None
 
 
+def utf8_digest_block(rng, size):
+    """`size` ASCII bytes whose SHA-1 digest is valid UTF-8 AND contains a non-ASCII character (so that text and byte offsets
+       of a `pieces` string decoded as str differ)"""
+    salt = rng.randrange(1 << 30)
+    base = hashlib.sha1(b"." * (size - 32))
+    for n in range(6_000_000):
+        tail = (b"z%d-%d" % (salt, n)).rjust(32, b"-")
+        h = base.copy()
+        h.update(tail)
+        dg = h.digest()
+        if dg.isascii():
+            continue
+        try:
+            dg.decode("utf-8")
+        except UnicodeDecodeError:
+            continue
+        return b"." * (size - 32) + tail
+    return None
+
+
 def e2e(ctx, mode):
     """Checker.results() / the CLI vs the reference verifier on generated trees x metafile kinds x damage sets"""
     ntrees = {"quick": {"C05": 14, "C04": 10, "C16": 10}, "thorough": {"C05": 260, "C04": 160, "C16": 160}}[ctx.tier][mode]
@@ -1079,8 +1099,20 @@ def aimed_utf8(ctx, mode, tmp):
     if data is None:
         ctx.notes.append("aimed class utf8-digest: no payload found")
         return
+    # two pieces: a full first piece whose digest is valid UTF-8 with a multi-byte character, then the short payload above
+    first = utf8_digest_block(rng, 16384)
+    variants = [(data, "recorded digest is valid UTF-8")]
+    if first is not None:
+        variants.append((first + data, "recorded two-piece `pieces` string is valid UTF-8 with a multi-byte character"))
+    else:
+        ctx.notes.append("aimed class utf8-digest (two pieces): no block found")
+    for data, klass in variants:
+        _aimed_utf8_one(ctx, mode, tmp, data, klass)
+
+
+def _aimed_utf8_one(ctx, mode, tmp, data, klass):
     for single in (False, True):
-        base = os.path.join(tmp, f"u{int(single)}")
+        base = os.path.join(tmp, f"u{int(single)}-{len(data)}")
         root = os.path.join(base, "p.bin" if single else "p")
         tree = {(): data} if single else {("a",): data}
         trees.write_tree(root, tree)
@@ -1093,7 +1125,7 @@ def aimed_utf8(ctx, mode, tmp):
             r = impl_result(out, root)
             inp = {"scope": "aimed", "aimed": "utf8-digest", "payload": data.decode(), "single": single, "metafile": kind,
                    "piece_length": 16384, "pieces": meta[b"info"][b"pieces"].hex()}
-            ctx.case(key=("utf8", single, kind), classes=["recorded digest is valid UTF-8"], nontrivial=True)
+            ctx.case(key=("utf8", single, kind, len(data)), classes=[klass], nontrivial=True)
             if not (isinstance(r, float) and r == 100):
                 ctx.fail("utf8-digest", inp, 100.0, r, detail="pyben returns a valid-UTF-8 `pieces` string as str (D37)")
 
